@@ -37,6 +37,7 @@ func checkC09(c *Check) {
 	c.Rule("C09.R1", "logout precedes everything: in Process every call of the OK writer and every call that can reach the token endpoint lies on the false edge of the logout-path test.", 4)
 	c.Rule("C09.R2", "remove-then-answer: with a session id present the logout answer is reachable only through RemoveSession for that id; once RemoveSession failed, only a denial built by the session-error constructor (no Location, no Set-Cookie) is reachable.", 3)
 	c.Rule("C09.R3", "answer shape: the logout answer redirects to config.GetLogout().GetRedirectUri() and expires the session cookie (timeout 0); with discovery, loadWellKnownConfig fills an empty logout redirect URI from end_session_endpoint or returns ErrMissingLogoutRedirectURI.", 4)
+	c.Rule("C09.R6", "a removed Redis session stays removed for checks in flight: every successful return of the five Redis session operations has passed through the TTL refresher with err == nil, and the refresher reports a key without creation time as an error (the rules of C10.R3) — the callback of a login that was under way when the logout was answered fails at its next store operation instead of re-creating the session.", 9)
 	c.Rule("C09.R5", "the stores report a failed removal: the Redis store's RemoveSession returns the DEL command's error (nil only when Err() is nil), the memory store deletes unconditionally — so that `cannot be removed` reaches the handler as an error (R2).", 2)
 	c.Rule("C09.R4", "no resurrecting write: a store write that creates the session when absent (SetTokenResponse) must not follow, in one check, a blocking token-endpoint round trip that itself follows the read which justified the write — a logout answered during the round trip would be undone by the write. (Existence-conditional writes would satisfy the rule; the store interface offers none.)", 2)
 	if !requireModel(c, "C09.R1", m, "hw.", "cookie.builder") {
@@ -238,6 +239,7 @@ func checkC09(c *Check) {
 	headersOwnBacking(c, "C09.R3", R)
 	// the discovered end-session endpoint is the one of this filter's own discovery document
 	discoveryCacheKeyRule(c, "C09.R3")
+	discoveryWheneverConfigured(c, "C09.R3")
 	if answer != nil {
 		d := resolveCell(stripConv(answer.Common().Args[1]))
 		okLoc, okCookie, okName := false, false, false
@@ -323,6 +325,11 @@ func checkC09(c *Check) {
 	}
 
 	storesReportFailedRemoval(c, "C09.R5")
+	// a logged-out (deleted) Redis session is noticed by every later operation of a check that was in flight: each
+	// successful operation passes through the TTL refresher, which fails on a key without creation time (C10.R3)
+	if sr, miss := getStoreRoles(P); c.Anchor("C09.R6", "session stores", len(miss) == 0) {
+		refile(c, "C09.R6", func() { c10R3(c, sr) })
+	}
 
 	// ---- R4
 	nR4 := 0
@@ -504,4 +511,75 @@ func headersOwnBacking(c *Check, rule string, R *Roles) {
 			}
 		}
 	}
+}
+
+// discoveryWheneverConfigured: the handler constructor resolves the discovery document whenever a
+// configuration URI is set — the only configuration-dependent condition on the way to the discovery call
+// is the non-emptiness of GetConfigurationUri(). Discovery also fills settings that have no explicit
+// counterpart in the decision to skip it (the end-session endpoint of the logout answer), so an extra
+// "nothing is missing" test silently leaves them empty.
+func discoveryWheneverConfigured(c *Check, rule string) {
+	P := c.P
+	ctor := P.Func(pkgAuthz, "NewOIDCHandler")
+	gw := P.Func(pkgOIDC, "GetWellKnownConfig")
+	if !c.Anchor(rule, "NewOIDCHandler and GetWellKnownConfig", ctor != nil && gw != nil) {
+		return
+	}
+	var cfgParam *ssa.Parameter
+	for _, p := range ctor.Params {
+		if typeID(derefType(p.Type())) == idOIDCConfig {
+			cfgParam = p
+		}
+	}
+	var site ssa.CallInstruction
+	for _, ci := range allCalls(ctor) {
+		callee := ci.Common().StaticCallee()
+		if callee == nil {
+			continue
+		}
+		if callee == gw {
+			site = ci
+			continue
+		}
+		if isOwnPath(pkgPathOf(callee)) {
+			for _, f := range deepFuncs(callee, 2) {
+				if f == gw {
+					site = ci
+				}
+			}
+		}
+	}
+	if !c.Anchor(rule, "discovery call in NewOIDCHandler", site != nil && cfgParam != nil) {
+		return
+	}
+	bad := ""
+	sawURI := false
+	for cond, pol := range FactsOf(ctor).At(site) {
+		inner, neg := unwrapBool(cond)
+		dep := false
+		for d := range dataDeps(inner) {
+			if d == ssa.Value(cfgParam) {
+				dep = true
+			}
+		}
+		if !dep {
+			continue
+		}
+		if bo, ok := inner.(*ssa.BinOp); ok && (bo.Op == token.EQL || bo.Op == token.NEQ) {
+			if isNilConst(bo.X) || isNilConst(bo.Y) {
+				continue // error / nil tests of earlier steps
+			}
+			if s, isC := constString(bo.Y); isC && s == "" {
+				if gc, _, isCall := asCall(resolveCell(stripConv(bo.X))); isCall && isCallTo(gc, idOIDCConfig+".GetConfigurationUri") {
+					if ((bo.Op == token.NEQ) != neg) == pol {
+						sawURI = true
+					}
+					continue
+				}
+			}
+		}
+		bad = "the discovery call at " + posOf(P, site) + " is additionally conditioned on " + descDepth(inner, 3)
+	}
+	c.Obl(bad == "" && sawURI, rule, "discovery-whenever-configured", P.Pos(site.Pos()), "discovery runs under configuration_uri != \"\" and no other configuration-dependent condition",
+		"with a configuration URI set, discovery can be skipped: "+bad+" — settings only discovery provides (the end-session endpoint of the logout answer) stay empty")
 }
